@@ -436,6 +436,16 @@ def proof_step(res, need_translator=True):
                 res.pid, pr["discharged"], pr["obligations"], pr["log"][-2500:]))
         if pr["axioms"]:
             res.notes.append("axioms reported by Print Assumptions: " + ", ".join(pr["axioms"]))
+        if res.tier == "thorough" and pr["ok"]:
+            # independent re-check of the compiled property file and everything it depends on
+            rc, out, dt = sh(["coqchk", "-silent", "-o", "-Q", ".", "CH", "CH.props." + res.pid], cwd=COQ, timeout=5400)
+            m = re.search(r"\* Axioms:\s*(.*?)\n\s*\n", out, re.S)
+            ax = m.group(1).strip() if m else "?"
+            res.extra["coqchk"] = {"exit": rc, "axioms": ax, "wall_s": round(dt, 1)}
+            if rc != 0:
+                res.tie_broken("coqchk", "coqchk does not accept props/%s.vo:\n%s" % (res.pid, out[-2000:]))
+            elif ax != "<none>":
+                res.notes.append("coqchk axioms: " + ax)
     return res.proof
 
 
